@@ -11,5 +11,6 @@ for id in $ids; do
   VERIF_TIER=${VERIF_TIER:-quick} ./check $prop > out/seeded/$id.log 2>&1; rc=$?
   git -C /repo checkout -- . ; git -C /repo clean -fdq
   case $rc in 1) r=DETECTED;; 0) r=MISSED;; *) r=INFRA;; esac
-  echo "$id $prop $r $(grep -m2 'finding:' out/seeded/$id.log | tr '\n' ' ')"
+  line="$id $prop $r $(grep -m2 'finding:' out/seeded/$id.log | tr '\n' ' ')"
+  echo "$line"; echo "$line" >> out/seeded_results.txt
 done
